@@ -9,7 +9,7 @@ from ..model import AnalysisError, Func, Repo, short, walk_no_nested
 from ..report import RuleResult
 from .c01 import r1_5
 from .c10 import r10_1
-from .common import expand_locals, norm
+from .common import parents_map, enclosing_stmt, expand_locals, norm
 
 MG = "vectorizers/mixed_gram_vectorizer.py"
 
@@ -406,11 +406,102 @@ def r9_7(repo: Repo) -> RuleResult:
     return r10_6(repo, "R9.7", {MG}, floor=3)
 
 
-RULES = [r9_1, r9_2, r9_3, r9_4, r9_5, r9_6, r9_7]
+def r9_8(repo: Repo) -> RuleResult:
+    """Every merge that is recorded in the merge list must also have been applied to the training arrays that
+    fit_transform hands back - otherwise transform, which replays the whole list, re-encodes the training strings
+    differently.  Path rule on the CFG of bpe_train: from each `merge_list.append(pair)` every path to the return
+    passes through a contraction call; tests whose outcome is fixed by an earlier edge of the same path (leaving
+    `while len(tokens) < vocab_size` makes `len(tokens) >= vocab_size` true) are followed on their feasible edge only."""
+    from ..cfg import CFG
+    from .common import rel_under
+
+    rr = RuleResult("R9.8", "every merge recorded by bpe_train is applied to the training arrays before they are returned", floor=1)
+    f = repo.func(MG, "bpe_train")
+    rets = [n for n in walk_no_nested(f.node) if isinstance(n, ast.Return) and isinstance(n.value, ast.Tuple) and len(n.value.elts) >= 3]
+    if len(rets) != 1:
+        raise AnalysisError("R9.8: return of bpe_train not recognised")
+    codes = norm(rets[0].value.elts[1])
+    g = CFG(f.node)
+    pm = parents_map(f.node)
+    apply_nodes = set()
+    for c in repo.calls_in(f):
+        tg = [t.name for t in repo.resolve_call(f, c) if isinstance(t, Func)]
+        if any(t in ("contract_and_count_pairs", "contract_pair") for t in tg):
+            nid = g.node_for(enclosing_stmt(c, pm))
+            if nid is not None:
+                apply_nodes.add(nid)
+            # a loop over the training arrays whose body contracts: reaching the loop applies the merge to every array
+            # (with no array at all there is nothing to apply it to)
+            from .common import ancestors
+
+            for a in ancestors(c, pm):
+                if isinstance(a, ast.For):
+                    hid = g.node_for(a)
+                    if hid is not None:
+                        apply_nodes.add(hid)
+                    break
+    if not apply_nodes:
+        raise AnalysisError("R9.8: no contraction call in bpe_train")
+    recs = [n for n in g.nodes if n.kind == "stmt" and isinstance(n.ast, ast.Expr) and isinstance(n.ast.value, ast.Call)
+            and norm(n.ast.value.func) == "%s.append" % codes]
+    ret_id = g.node_for(rets[0])
+    if not recs:
+        raise AnalysisError("R9.8: no `%s.append(...)` in bpe_train" % codes)
+
+    def escapes(start: int) -> Optional[List[int]]:
+        """A feasible path from start to the return that avoids every contraction call, or None."""
+        stack = [(start, frozenset(), (start,))]
+        seen = set()
+        while stack:
+            n, facts, path = stack.pop()
+            if (n, facts) in seen:
+                continue
+            seen.add((n, facts))
+            if n == ret_id:
+                return list(path)
+            node = g.nodes[n]
+            # statements that change a quantity a fact speaks about invalidate it
+            if node.kind == "stmt" and isinstance(node.ast, ast.AST):
+                changed = {x.id for x in ast.walk(node.ast) if isinstance(x, ast.Name) and isinstance(x.ctx, ast.Store)}
+                changed |= {norm(c.func.value) for c in ast.walk(node.ast) if isinstance(c, ast.Call) and isinstance(c.func, ast.Attribute)
+                            and c.func.attr in ("append", "extend", "pop") }
+                facts = frozenset(fc for fc in facts if not any(ch in str(fc) for ch in changed))
+            for t, lab in g.succ[n]:
+                if t in apply_nodes:
+                    continue
+                nf = facts
+                if node.kind == "test" and isinstance(node.ast, ast.AST) and lab in ("true", "false"):
+                    r_true, r_false = rel_under(node.ast, "true"), rel_under(node.ast, "false")
+                    if lab == "true" and r_false is not None and r_false in facts:
+                        continue  # infeasible: the opposite is known
+                    if lab == "false" and r_true is not None and r_true in facts:
+                        continue
+                    r = r_true if lab == "true" else r_false
+                    if r is not None:
+                        nf = facts | {r}
+                stack.append((t, nf, path + (t,)))
+        return None
+
+    for rec in recs:
+        construct = "%s.append(...)" % codes
+        if any(a is f.node for a in []):
+            pass
+        esc = escapes(rec.id)
+        if esc is None:
+            rr.ok(f, construct, "every feasible path from the recording of a merge to the return applies it (line %d)" % rec.ast.lineno, rec.ast.lineno)
+        else:
+            lines = [getattr(g.nodes[i].ast, "lineno", 0) for i in esc if isinstance(g.nodes[i].ast, ast.AST)]
+            rr.bad(f, construct, "a merge recorded at line %d can reach the return without being applied to the training arrays (path through lines %s): "
+                   "when the vocabulary budget ends the loop, fit_transform returns encodings that lack the last learned code while transform, which "
+                   "replays the whole merge list, uses it" % (rec.ast.lineno, lines[:8]), rec.ast.lineno, path=["line %d" % l for l in lines[:12]])
+    return rr
+
+
+RULES = [r9_1, r9_2, r9_3, r9_4, r9_5, r9_6, r9_7, r9_8]
 CLAIM = (
     "R9.1 definite assignment in every kernel of mixed_gram_vectorizer.py (the empty / one-character string clause); "
     "R9.2 all decode sites agree on `code <= mcc` and offset `code - mcc - 1`, both encoders start at mcc + 1 and advance "
-    "by one per merge (symbolic); R9.3 the vocabulary budget loop shape; R9.4 the out-of-range character mapping; R9.5 bookkeeping pairing: token and pair are appended together, the returned max_char_code is the running maximum, and transform replays exactly the stored merge list and limit; R9.6 sibling agreement: the encoder's contraction kernel equals the trainer's once the pair-count bookkeeping is sliced away (backward slice from the returned code array, alpha-renamed); R9.7 every np.empty buffer / placeholder list of the BPE and LZ kernels is stored on every iteration of its filling loop (an empty string keeps no placeholder)."
+    "by one per merge (symbolic); R9.3 the vocabulary budget loop shape; R9.4 the out-of-range character mapping; R9.5 bookkeeping pairing: token and pair are appended together, the returned max_char_code is the running maximum, and transform replays exactly the stored merge list and limit; R9.6 sibling agreement: the encoder's contraction kernel equals the trainer's once the pair-count bookkeeping is sliced away (backward slice from the returned code array, alpha-renamed); R9.7 every np.empty buffer / placeholder list of the BPE and LZ kernels is stored on every iteration of its filling loop (an empty string keeps no placeholder); R9.8 path rule on bpe_train: from every recording of a merge each feasible path to the return passes through a contraction call (tests decided by an earlier edge of the path are followed on their feasible edge only)."
 )
 NOT_DECIDED = (
     "losslessness for arbitrary strings, equality of transform and fit_transform encodings, and correctness of the "
